@@ -123,29 +123,29 @@ NOT_APPLICABLE = [
 
 # ------------------------------------------------------------------ mapper search (C01 C02 C09 C10 C11a): shared engine "MAPPER"
 MAPPER_CONFIGS = [
-    # (config, quick bounds, thorough bounds)
-    ("offset:0x0:asc:A",            "2,2;3,1;4,0", "3,3;4,1;5,0"),
-    ("offset:0x40000000:aligned:A", "2,2;3,1;4,0", "3,2;4,1;5,0"),
-    ("offset:0x3fffc000:asc:A",     "2,2;3,1;4,0", "3,2;4,1;5,0"),
-    ("offset:0x3fc0000000:lifo:A",  "2,2;3,1;4,0", "3,2;4,1;5,0"),
-    ("offset:0x0:lifo:B",           "2,2;3,1",     "3,2;4,1"),
-    ("mapped:0x0:asc:A",            "2,2;3,1;4,0", "3,3;4,1;5,0"),
-    ("mapped:0x3fffd000:lifo:A",    "2,2;3,1;4,0", "3,2;4,1;5,0"),
-    ("mapped:0x40000000:aligned:B", "2,2;3,1",     "3,2;4,1"),
-    ("rec1:0x0:asc:A",              "2,2;3,1;4,0", "3,3;4,1"),
-    ("rec126:0x3fffc000:asc:A",     "2,2;3,1",     "3,2;4,1"),
-    ("rec126:0x3fffd000:lifo:A",    "2,2;3,1",     "3,2;4,1"),
-    ("rec248:0x40000000:aligned:A", "2,2;3,1;4,0", "3,2;4,1"),
-    ("rec200:0x0:lifo:B",           "2,2;3,0",     "3,1;4,0"),
-    ("rec2:0x40000000:asc:B",       "2,2;3,0",     "3,1;4,0"),
-    ("offset:0x40000000:asc:B",     "2,2;3,0",     "3,2;4,0"),
-    ("mapped:0x0:lifo:A",           "2,2;3,1;4,0", "3,2;4,1;5,0"),
+    # (config, quick bounds, thorough bounds) — bounds are unions of (max depth, max deviations)
+    ("offset:0x0:asc:A",            "2,2;3,2;4,0", "3,3;4,2;5,1;6,0"),
+    ("offset:0x40000000:aligned:A", "2,2;3,2;4,0", "3,3;4,2;5,1;6,0"),
+    ("offset:0x3fffc000:asc:A",     "2,2;3,2;4,0", "3,3;4,1;5,0"),
+    ("offset:0x3fc0000000:lifo:A",  "2,2;3,2;4,0", "3,3;4,2;5,1;6,0"),
+    ("offset:0x0:lifo:B",           "2,2;3,1",     "3,2;4,1;5,0"),
+    ("mapped:0x0:asc:A",            "2,2;3,2;4,0", "3,3;4,2;5,1;6,0"),
+    ("mapped:0x3fffd000:lifo:A",    "2,2;3,2;4,0", "3,3;4,1;5,0"),
+    ("mapped:0x40000000:aligned:B", "2,2;3,1",     "3,2;4,1;5,0"),
+    ("rec1:0x0:asc:A",              "2,2;3,1;4,0", "3,3;4,1;5,0"),
+    ("rec126:0x3fffc000:asc:A",     "2,2;3,2",     "3,3;4,1;5,0"),
+    ("rec126:0x3fffd000:lifo:A",    "2,2;3,1;4,0", "3,2;4,1;5,0"),
+    ("rec248:0x40000000:aligned:A", "2,2;3,1;4,0", "3,3;4,1;5,0"),
+    ("rec200:0x0:lifo:B",           "2,2;3,0",     "3,2;4,0"),
+    ("rec2:0x40000000:asc:B",       "2,2;3,0",     "3,2;4,0"),
+    ("offset:0x40000000:asc:B",     "2,2;3,1",     "3,2;4,1;5,0"),
+    ("mapped:0x0:lifo:A",           "2,2;3,2;4,0", "3,3;4,2;5,1;6,0"),
 ]
 
 def mapper_units(tier):
     us = []
     for cfg, q, t in MAPPER_CONFIGS:
-        us.append(dict(sub="MAPPER", profile="chk", args=[cfg, q if tier == "quick" else t, "1500000" if tier == "quick" else "12000000"]))
+        us.append(dict(sub="MAPPER", profile="chk", args=[cfg, q if tier == "quick" else t, "1500000" if tier == "quick" else "20000000"]))
     return us
 
 _MAPPER_RULE = ("explicit-state breadth-first search over call histories on the real mappers (OffsetPageTable with several physical offsets, "
